@@ -373,12 +373,12 @@ func startWatchdog(r *Rec) {
 // stages
 
 type Src interface {
-	Intn(n int) int           // uniform in [0,n)
-	Range(lo, hi int) int     // uniform in [lo,hi]
-	Bool() bool               // fair coin
-	Prob(pct int) bool        // true with pct percent
-	Int32() int32             // any int32
-	Int64() int64             // any int64
+	Intn(n int) int       // uniform in [0,n)
+	Range(lo, hi int) int // uniform in [lo,hi]
+	Bool() bool           // fair coin
+	Prob(pct int) bool    // true with pct percent
+	Int32() int32         // any int32
+	Int64() int64         // any int64
 	Str(alphabet []string, lo, hi int) string
 }
 
@@ -396,7 +396,8 @@ func (s rapidSrc) Range(lo, hi int) int {
 	}
 	return rapid.IntRange(lo, hi).Draw(s.t, "r")
 }
-func (s rapidSrc) Bool() bool        { return rapid.Bool().Draw(s.t, "b") }
+func (s rapidSrc) Bool() bool { return rapid.Bool().Draw(s.t, "b") }
+
 // Prob is true with (close to) pct percent.  rapid's integer generators favour
 // small values, which would make small percentages far too likely; the drawn word
 // is therefore mixed (a bijection) before it is reduced.  The offset makes the
@@ -412,8 +413,8 @@ func mix64(x uint64) uint64 {
 	x = (x ^ (x >> 27)) * 0x94d049bb133111eb
 	return x ^ (x >> 31)
 }
-func (s rapidSrc) Int32() int32      { return rapid.Int32().Draw(s.t, "i32") }
-func (s rapidSrc) Int64() int64      { return rapid.Int64().Draw(s.t, "i64") }
+func (s rapidSrc) Int32() int32 { return rapid.Int32().Draw(s.t, "i32") }
+func (s rapidSrc) Int64() int64 { return rapid.Int64().Draw(s.t, "i64") }
 func (s rapidSrc) Str(alphabet []string, lo, hi int) string {
 	n := s.Range(lo, hi)
 	var sb strings.Builder
